@@ -91,7 +91,7 @@ pub fn corner_pairs() -> Vec<(Shape, Shape)> {
 
 pub fn jobs(tier: Tier, seed: u64) -> Vec<Job> {
     let cfg = base_cfg(tier);
-    let mut out = vec![];
+    let mut out = super::c07::conformance_jobs(tier, &[2, 3]);
     let mut seen = std::collections::HashSet::new();
     let per_job = Duration::from_secs(match tier {
         Tier::Quick => 60,
